@@ -1,6 +1,6 @@
 (** C32 — the property on the registration / start-up transition system
-    (ModelReg.v), at full strength: no guard, the unchanged code ([fx = false]),
-    from the state right after the first registration. *)
+    (ModelReg.v), at full strength: no guard, the code as it is in /repo (with
+    the repair, [fx = true]), from the state right after the first registration. *)
 From Coq Require Import List ZArith Bool Sorted.
 From C33 Require Import C32.Model C32.ModelReg C32.Spec.
 Import ListNotations.
@@ -9,12 +9,12 @@ Open Scope Z_scope.
 (** At most one goroutine of the subscriber can still post. *)
 Definition C32_single_task_per_subscriber_full : Prop :=
   forall (c : cfg) (st : store) (r0 : Z) (es : list yev),
-    (live_tasks (yrun false c st (init_sys0 false r0) es) <= 1)%nat.
+    (live_tasks (yrun true c st (init_sys0 true r0) es) <= 1)%nat.
 
 (** What the subscriber acknowledged is gap-free and increasing. *)
 Definition C32_reg_acked_contiguous_increasing_full : Prop :=
   forall (c : cfg) (st : store) (r0 : Z) (es : list yev),
-    let y := yrun false c st (init_sys0 false r0) es in
+    let y := yrun true c st (init_sys0 true r0) es in
     exists r, (0 < r0 -> r = r0) /\
               contiguous_from (c_kind c) st r (y_acked y) /\
               StronglySorted Z.lt (y_acked y).
@@ -22,5 +22,5 @@ Definition C32_reg_acked_contiguous_increasing_full : Prop :=
 (** The stored last push sequence never moves backwards. *)
 Definition C32_reg_recorded_monotone_full : Prop :=
   forall (c : cfg) (st : store) (r0 : Z) (es1 es2 : list yev),
-    y_rcd (yrun false c st (init_sys0 false r0) es1) <=
-    y_rcd (yrun false c st (init_sys0 false r0) (es1 ++ es2)).
+    y_rcd (yrun true c st (init_sys0 true r0) es1) <=
+    y_rcd (yrun true c st (init_sys0 true r0) (es1 ++ es2)).
